@@ -159,16 +159,15 @@ def run(chk):
     T, U, C, H, G = "threshold", "unanimity", "cnf", "hier", "tree"
     if chk.quick:
         jobs = [
-            ("q5", ["-q", "5", "-fams", ",".join([T, U, C, G]), "-maxn", "4", "-cnfn", "3", "-leaves", "4", "-cap", "60", "-exh", "25", "-deals", "2"]),
-            ("q11-tu", ["-q", "11", "-fams", T + "," + U, "-maxn", "4", "-exh", "11", "-deals", "2"]),
-            ("q11-cnf", ["-q", "11", "-fams", C, "-cnfn", "4", "-cap", "110", "-exh", "11", "-deals", "1"]),
-            ("q11-tree", ["-q", "11", "-fams", G, "-maxn", "4", "-leaves", "4", "-cap", "110", "-exh", "11", "-deals", "1"]),
-            ("q251-hier", ["-q", "251", "-fams", H, "-maxn", "4", "-exh", "0", "-deals", "1"]),
-            ("q251-tu", ["-q", "251", "-fams", T + "," + U, "-maxn", "4", "-exh", "0", "-deals", "1", "-ids", "large,unsorted"]),
+            ("q5", ["-q", "5", "-fams", ",".join([T, U, C, G]), "-maxn", "4", "-cnfn", "3", "-leaves", "4", "-cap", "30", "-exh", "25", "-deals", "1"]),
+            ("q11-tu", ["-q", "11", "-fams", T + "," + U, "-maxn", "4", "-exh", "11", "-deals", "1"]),
+            ("q11-cnf", ["-q", "11", "-fams", C, "-cnfn", "4", "-cap", "60", "-exh", "0", "-deals", "1"]),
+            ("q11-tree", ["-q", "11", "-fams", G, "-maxn", "4", "-leaves", "4", "-cap", "60", "-exh", "0", "-deals", "1"]),
+            ("q251", ["-q", "251", "-fams", ",".join([H, T, U]), "-maxn", "4", "-exh", "0", "-deals", "1"]),
             ("q45971", ["-q", "45971", "-fams", ",".join([T, H, G, C]), "-maxn", "4", "-cnfn", "3", "-leaves", "3", "-cap", "30", "-exh", "0", "-deals", "1", "-ids", "dense,large"]),
         ]
         mcs = ["SharingMC_q5.cfg", "SharingMC_q7.cfg"]
-        chunk = 1200
+        chunk = 2000
     else:
         jobs = [
             ("q5", ["-q", "5", "-fams", ",".join([T, U, C, G]), "-maxn", "4", "-cnfn", "4", "-leaves", "5", "-cap", "1500", "-exh", "125", "-deals", "2"]),
